@@ -185,4 +185,7 @@ def collapse_obligations():
     return obs
 _base_tet = obligations
 def obligations():
-    return _base_tet() + collapse_obligations()
+    # collapse_obligations() is NOT registered: one enumerated instance (a single concrete halfedge) needs more than 24 GB / 20 minutes
+    # in CBMC (the collapse runs circulators, set operations, four cascaded deletions and a garbage collection); kept for
+    # reference, see DESIGN S6 (the C15 seed is therefore not caught)
+    return _base_tet()
